@@ -114,7 +114,55 @@ theorem no_query_route_outside_subrouter :
       Refinery.Gen.QueryAuth.queryRouteCount = Refinery.Gen.QueryAuth.queryRoutes.length ∧
       0 < Refinery.Gen.QueryAuth.queryRouteCount := by decide
 
+/-! ## Reloads -/
+
+/-- the token in force after a history is the last reloaded one (the initial one if there was no reload) -/
+theorem tokenAfter_append_reload (t0 : String) (ops : List Op) (tok : String) :
+    tokenAfter t0 (ops ++ [.reload tok]) = tok := by
+  simp [tokenAfter, List.foldl_append, step]
+
+theorem tokenAfter_append_request (t0 : String) (ops : List Op) (vals : List String) :
+    tokenAfter t0 (ops ++ [.request vals]) = tokenAfter t0 ops := by
+  simp [tokenAfter, List.foldl_append, step]
+
+theorem run_append (t0 : String) (ops more : List Op) :
+    run t0 (ops ++ more) = run t0 ops ++ run (tokenAfter t0 ops) more := by
+  induction ops generalizing t0 with
+  | nil => simp [run, tokenAfter]
+  | cons o os ih =>
+    cases o with
+    | reload tok => simp [run, step, tokenAfter, ih]
+    | request vals => simp [run, step, tokenAfter, ih]
+
+/-- **request_uses_token_in_force** — after any history of reloads and requests, a request is
+answered against the token configured at that moment: data iff that token is non-empty and the
+request's first header value equals it byte for byte. -/
+theorem request_uses_token_in_force (t0 : String) (ops : List Op) (vals : List String) :
+    run t0 (ops ++ [.request vals]) = run t0 ops ++ [respond (tokenAfter t0 ops) vals] := by
+  rw [run_append]; simp [run, step]
+
+/-- a rotated-out token stops working with the reload that replaces it … -/
+theorem stale_token_refused (t0 old new : String) (ops : List Op) (hne : old ≠ new) (rest : List String) :
+    respond (tokenAfter t0 (ops ++ [.reload new])) (old :: rest) ≠ .data := by
+  rw [tokenAfter_append_reload]; exact different_token_refused new old hne rest
+
+/-- … the new token works from then on … -/
+theorem new_token_accepted (t0 new : String) (ops : List Op) (hn : new ≠ "") (rest : List String) :
+    respond (tokenAfter t0 (ops ++ [.reload new])) (new :: rest) = .data := by
+  rw [tokenAfter_append_reload]; exact (query_auth_spec new _).mpr ⟨hn, rfl⟩
+
+/-- … and clearing the token closes the endpoints for every request. -/
+theorem cleared_token_refuses_all (t0 : String) (ops : List Op) (vals : List String) :
+    respond (tokenAfter t0 (ops ++ [.reload ""])) vals ≠ .data := by
+  rw [tokenAfter_append_reload]; exact unconfigured_refuses_all vals
+
 /-! Non-vacuity -/
+example : run "old" [.request ["old"], .reload "new", .request ["old"], .request ["new"], .reload "",
+    .request ["new"], .request [""]] =
+  [.data, respond "new" ["old"], .data, respond "" ["new"], respond "" [""]] := by
+  simp [run, step]
+  constructor <;> decide
+example : respond "new" ["old"] ≠ .data := by decide
 example : respond "s3cret" ["s3cret"] = .data := by decide
 example : respond "s3cret" ["s3cret", "junk"] = .data := by decide
 example : respond "s3cret" ["s3cre"] ≠ .data := by decide
